@@ -66,13 +66,12 @@ def main():
                 rows.append(dict(prop=pid, mutant=name, result=res, keys=keys, tests_pass=tests, tier=a.tier,
                                  secs=round(time.time() - t0), last=(c.stdout.strip().splitlines() or [""])[-1][:200]))
                 print(json.dumps(rows[-1]), flush=True)
+                with open(os.path.join(V, "run", "mutants", "RESULTS.jsonl"), "a") as fh:
+                    fh.write(json.dumps(rows[-1]) + "\n")
             finally:
                 subprocess.run(["git", "-C", "/repo", "worktree", "remove", "--force", repo],
                                stdout=subprocess.DEVNULL, stderr=subprocess.DEVNULL)
                 shutil.rmtree(tmp, ignore_errors=True)
-    with open(os.path.join(V, "run", "mutants", "RESULTS.jsonl"), "a") as fh:
-        for r in rows:
-            fh.write(json.dumps(r) + "\n")
     n = sum(r["result"] == "caught" for r in rows)
     print("caught %d of %d" % (n, len(rows)))
 
